@@ -1,0 +1,21 @@
+//! Verification hook (only compiled with `--cfg libp2p_verif`): read-only view of the private
+//! half-close state of a [`Stream`](super::Stream) so that a model checker can de-duplicate
+//! explored states. No behaviour is changed.
+
+impl<T> super::Stream<T>
+where
+    T: futures::AsyncRead + futures::AsyncWrite + Unpin,
+{
+    /// `Debug` of the private state machine, length of the stream's read buffer and of the
+    /// framed data channel's undecoded input.
+    #[doc(hidden)]
+    pub fn verif_state(&self) -> String {
+        format!(
+            "{:?}|{}|{}|{}",
+            self.state,
+            self.read_buffer.len(),
+            self.io.read_buffer().len(),
+            self.drop_notifier.is_some()
+        )
+    }
+}
